@@ -10,6 +10,7 @@ import (
 	"net/http"
 	"net/url"
 	"strings"
+	"time"
 
 	spb "google.golang.org/genproto/googleapis/rpc/status"
 	"google.golang.org/grpc"
@@ -43,7 +44,7 @@ func (s *Script) requests(callID string) []chunk {
 	var out []chunk
 	for i := 0; i < s.NMsg; i++ {
 		c := chunk{ID: callID, Seq: int32(i), Text: fmt.Sprintf("m%d", i)}
-		if i == 0 {
+		if i == 0 && !s.MetaPlan {
 			c.Script = s.planJSON()
 		}
 		if s.BigReq == i {
@@ -92,6 +93,9 @@ func runGRPC(ctx context.Context, cc *grpc.ClientConn, s *Script, callID string)
 	pairs := []string{"x-vf-id", callID}
 	for _, kv := range s.MD {
 		pairs = append(pairs, kv.K, string(kv.V))
+	}
+	if s.MetaPlan {
+		pairs = append(pairs, "x-vf-plan-bin", s.planJSON())
 	}
 	ctx = metadata.AppendToOutgoingContext(ctx, pairs...)
 	full := "/vf.px.Std/" + methodOf[s.Shape]
@@ -148,11 +152,34 @@ func runGRPC(ctx context.Context, cc *grpc.ClientConn, s *Script, callID string)
 			}
 		case "c":
 			st.CloseSend()
+		default:
+			think(ctx, op)
 		}
 	}
 	for recvOne() {
 	}
 	return t
+}
+
+// think executes a "w<ms>" step: client think time (workload, not a verdict).
+func think(ctx context.Context, op string) {
+	var ms int
+	if _, err := fmt.Sscanf(op, "w%d", &ms); err != nil || ms <= 0 {
+		return
+	}
+	select {
+	case <-time.After(time.Duration(ms) * time.Millisecond):
+	case <-ctx.Done():
+	}
+}
+
+func hasThink(plan []string) bool {
+	for _, op := range plan {
+		if strings.HasPrefix(op, "w") {
+			return true
+		}
+	}
+	return false
 }
 
 func encodeBin(b []byte) string { return base64.RawStdEncoding.EncodeToString(b) }
@@ -179,7 +206,35 @@ func runHTTP(ctx context.Context, hc *http.Client, base string, s *Script, callI
 			}
 			body.Write(b)
 		}
-		req, err = http.NewRequestWithContext(ctx, "POST", base+pathOf[s.Shape], bytes.NewReader(body.Bytes()))
+		var rd io.Reader = bytes.NewReader(body.Bytes())
+		if hasThink(s.Client) {
+			// streamed request body (h2c): the client plan is executed on
+			// the body writer, with its think time
+			pr, pw := io.Pipe()
+			rd = pr
+			go func() {
+				next := 0
+				for _, op := range s.Client {
+					switch op {
+					case "s":
+						if next < len(reqs) {
+							b, _ := jsonM.Marshal(reqs[next].msg())
+							if _, err := pw.Write(b); err != nil {
+								return // the transport stopped reading: the call is over
+							}
+						}
+						next++
+					case "c":
+						pw.Close()
+						return
+					default:
+						think(ctx, op)
+					}
+				}
+				pw.Close()
+			}()
+		}
+		req, err = http.NewRequestWithContext(ctx, "POST", base+pathOf[s.Shape], rd)
 		if req != nil {
 			req.Header.Set("Content-Type", "application/json")
 		}
@@ -190,6 +245,9 @@ func runHTTP(ctx context.Context, hc *http.Client, base string, s *Script, callI
 	}
 	req.Header.Set("Accept", "application/json")
 	req.Header.Set("X-Vf-Id", callID)
+	if s.MetaPlan {
+		req.Header.Set("X-Vf-Plan-Bin", encodeBin([]byte(s.planJSON())))
+	}
 	for _, kv := range s.MD {
 		v := string(kv.V)
 		if strings.HasSuffix(kv.K, "-bin") {
